@@ -218,8 +218,12 @@ func genOtherRec(rt *rapid.T, tk *tokens, kind string, collide bool) kenc.Rec {
 	case "execve":
 		var args [][]byte
 		argc := rapid.IntRange(0, 4).Draw(rt, "argc")
-		if rapid.IntRange(0, 7).Draw(rt, "manyargs") == 0 {
+		switch rapid.IntRange(0, 15).Draw(rt, "manyargs") {
+		case 0, 1:
 			argc = rapid.IntRange(9, 24).Draw(rt, "argcmany") // two-digit argument keys: a10 sorts before a2 as text
+		case 2:
+			// a linker or xargs command line: hundreds of arguments, three-digit keys
+			argc = rapid.SampledFrom([]int{129, 128, 127, 257, 100, 300, 1025}).Draw(rt, "argchuge")
 		}
 		for i, n := 0, argc; i < n; i++ {
 			a := tk.s("arg")
